@@ -257,3 +257,32 @@ Definition with_line_anchors (c : cat_cfg) : cat_cfg :=
   {| sep_from := sep_from c; sep_to := sep_to c; split_ch := split_ch c; suffixes := suffixes c;
      values := values c; star := star c; matcher := MRegexLine; default_verdict := default_verdict c;
      shape := shape c |}.
+
+(* ---- one filter OBJECT answering a history of messages ----
+   The property speaks of "the filter's verdict for (category, type)".  An application asks ONE
+   CategoryFilter object about many messages in a row, and the category of a message reaches filter() as a
+   `const char *` (QMessageLogContext::category): a query is therefore the ADDRESS at which the name is
+   stored (two different names may sit at the same address one after the other: a reused buffer, the heap
+   block of a destroyed LogMessage copy recycled for the next copy), the name's TEXT and the message type.
+   The state of the object is what the constructor built, the rule list (CategoryFilter has the one data
+   member m_rules and filter() does not write it; tools/s2c/category.py pins both): [obj_step] hands the
+   state back unchanged and looks at the text and the type only. *)
+Record query := { q_addr : N; q_cat : str; q_type : mtype }.
+Definition obj_state := list rule.
+Definition obj_new (cfg : cat_cfg) (rules : str) : obj_state := parse_rules cfg rules.
+Definition obj_step (cfg : cat_cfg) (st : obj_state) (q : query) : obj_state * bool :=
+  (st, filter_rules cfg st (q_cat q) (q_type q)).
+Fixpoint obj_run (cfg : cat_cfg) (st : obj_state) (qs : list query) : list bool :=
+  match qs with
+  | [] => []
+  | q :: r => let (st', v) := obj_step cfg st q in v :: obj_run cfg st' r
+  end.
+(* CategoryFilter f(rules); then f.filter(m) for every message of the history, in order *)
+Definition object_answers (cfg : cat_cfg) (rules : str) (qs : list query) : list bool :=
+  obj_run cfg (obj_new cfg rules) qs.
+(* what the property text prescribes for a history: every message is judged on its own name and type *)
+Definition spec_answers (rules : str) (qs : list query) : list bool :=
+  map (fun q => spec_verdict rules (q_cat q) (q_type q)) qs.
+(* boolean oracle evaluated on the answers one implementation object gave to a history *)
+Definition prop_c15_seq_b (rules : str) (qs : list query) (verdicts : list bool) : bool :=
+  list_eqb Bool.eqb verdicts (spec_answers rules qs).
